@@ -23,7 +23,7 @@ Proof. exact (@failed_call_no_effect). Qed.
 Print Assumptions C15_failed_call_no_effect.
 
 Theorem C15_failed_writeall_root_no_effect :
-  forall (D : Type) (dg : bytes -> D) (st : wstate D) l, wstep dg st (OWriteall true l) = (st, Raised).
+  forall (D : Type) (dg : bytes -> D) (st : wstate D) dr l, wstep dg st (OWriteall true dr l) = (st, Raised).
 Proof. exact (@failed_writeall_root_no_effect). Qed.
 Print Assumptions C15_failed_writeall_root_no_effect.
 
@@ -36,6 +36,21 @@ Theorem C15_failed_read_effect :
               (dirty a s = false -> c = []).
 Proof. exact (@failed_read_effect). Qed.
 Print Assumptions C15_failed_read_effect.
+
+(* writeall, dereference=False or True: the failure of a tree member (lstat / open / readlink /
+   read raising anything) always reaches the caller -- except an ELOOP error under dereference=True,
+   which _writeall skips on purpose (stops dr s = fires AWrite s && negb (dr && s_eloop s)) *)
+Theorem C15_writeall_failure_reaches_caller :
+  forall (D : Type) (dg : bytes -> D) dr l (st : wstate D), reachable dg st ->
+  existsb (stops dr) l = true -> snd (wstep dg st (OWriteall false dr l)) = Raised.
+Proof. exact (@writeall_failure_reaches_caller). Qed.
+Print Assumptions C15_writeall_failure_reaches_caller.
+
+Theorem C15_stops_not_eloop : forall dr s, fires AWrite s = true -> s_eloop s = false -> stops dr s = true.
+Proof. exact stops_not_eloop. Qed.
+
+Theorem C15_stops_no_deref : forall s, fires AWrite s = true -> stops false s = true.
+Proof. exact stops_no_deref. Qed.
 
 (* the worker never lags behind the registered entries: no call works on an earlier call's member *)
 Theorem C15_worker_in_step :
@@ -133,8 +148,8 @@ Proof. exact hyps_satisfiable. Qed.
 Example C15_later_writes_intact_example :
   let ops := [OCall AWritestr sx; OCall AWrite (sa_open true); OCall AWrite slink; OCall AWrite s_missing;
               OCall AWritef s_badname; OCall AWrite s_dangling; OCall AWritef (sa_read 0 false);
-              OWriteall false [sdir; sb; sa_open false; sy];
-              OWriteall true [sdir]; OCall AWritef sy] in
+              OWriteall false false [sdir; sb; sa_open false; sy];
+              OWriteall true false [sdir]; OCall AWritef sy] in
   forallb clean_op ops = true /\
   snd (run32 st0 ops) = [Returned; Raised; Returned; Raised; Raised; Raised; Raised; Raised; Raised; Returned] /\
   abs32 (fst (run32 st0 ops)) =
@@ -148,8 +163,18 @@ Example C15_failed_call_no_effect_example :
   wstep32 st0 (OCall AWrite (sa_open false)) = (set_init st0, Raised) /\ set_init (D:=Z) st0 <> st0 /\
   abs32 (set_init st0) = Some [] /\ abs32 st0 = Some [] /\
   fires AWritef (sa_read 3 true) = true /\ dirty AWritef (sa_read 3 true) = true /\
-  fires AWritestr (sa_read 3 true) = false /\ fires AWrite (mkSrc 3 KDir [] (Some (mkFault FOpen true))) = false.
+  fires AWritestr (sa_read 3 true) = false /\ fires AWrite (mkSrc 3 KDir [] (Some (mkFault FOpen true)) false) = false.
 Proof. exact failed_call_no_effect_example. Qed.
+
+Example C15_writeall_eloop_example :
+  let tree := [sdir; sb; s_eloop_open; sy] in
+  snd (run32 st0 [OWriteall false true tree]) = [Returned] /\
+  abs32 (fst (run32 st0 [OWriteall false true tree])) = Some [(3, MDir); (2, MData [66; 66; 66]); (4, MData [89; 89; 89])] /\
+  snd (run32 st0 [OWriteall false false tree]) = [Raised] /\
+  abs32 (fst (run32 st0 [OWriteall false false tree])) = Some [(3, MDir); (2, MData [66; 66; 66])] /\
+  snd (run32 st0 [OWriteall false true [sdir; sb; sa_open true; sy]]) = [Raised] /\
+  existsb (stops true) [sdir; sb; sa_open true; sy] = true /\ existsb (stops true) tree = false.
+Proof. exact writeall_eloop_example. Qed.
 
 Example C15_members_before_intact_example :
   forallb clean_op [OCall AWritestr sx; OCall AWritestr sw] = true /\
